@@ -27,7 +27,7 @@ inductive RW where
 
 /-- `typ.__origin__` as far as RemoveEmptyContainers cares: the kind of a generic, `none` for everything else -/
 inductive Kind where | list | set | dict | ddict | tuple | iterator | generator | union | type
-  deriving BEq, Repr
+  deriving DecidableEq, Repr
 
 def Ty.kind : Ty → Option Kind
   | .list _ => some .list | .set _ => some .set | .dict _ _ => some .dict | .ddict _ _ => some .ddict
@@ -81,7 +81,7 @@ def toTupleOf (ts : List Ty) : Option Ty :=
     | none => none
     | some v =>
       if ts.all (fun t => match t with
-          | .tuple as => as.all (fun a => a == v)
+          | .tuple as => as.all (fun a => Ty.beq' a v)
           | _ => false) then some (.tupleOf v) else none
   else none
 
@@ -122,8 +122,7 @@ def mscbUnion (h : Hier) (fuel : Nat) (ts : List Ty) : Ty :=
     match ts.filterMap Ty.clsId? with
     | [] => .union ts
     | c0 :: cs =>
-      let chains := (c0 :: cs).map (fun c => (baseChain h fuel c).reverse)
-      match (chains.tail.foldl commonPrefix chains.head!).getLast? with
+      match ((cs.map (fun c => (baseChain h fuel c).reverse)).foldl commonPrefix (baseChain h fuel c0).reverse).getLast? with
       | some a => .cls a
       | none => .union ts
   else .union ts
